@@ -84,7 +84,7 @@ package proxy
 //@   ghost callsite-requires [C03] Cache arg_expires == maxAge
 
 // 416 from the origin: once retried without the Range header (unless noRetry).
-//@ props C09 C16 C02 C14
+//@ props C09 C16 C02 C14 C08
 //@ func fetcher.handleUpstream416
 //@   decreases noRetry ? 0 : 2
 //@   ghost mutual fetcher.handleUpstreamResponse
@@ -102,6 +102,9 @@ package proxy
 //@   ensures [C05] upcancels >= old(upcancels) && (!ctxcancellable(old(req.ctx)) ==> upcancels == old(upcancels))
 //@   requires resp.StatusCode >= 100 && resp.StatusCode <= 999
 //@   ensures resp.StatusCode >= 100 && resp.StatusCode <= 999
+// A request that cannot be repeated (its body is spent) or that carried no Range is never sent to
+// the origin a second time: the origin's 416 is relayed as it is.
+//@   ensures [C08] old(!streq(req.Method, "GET") && !streq(req.Method, "HEAD")) || !old(clientHd.Range.value.some) ==> upcalls == old(upcalls) && cached == nil && err == nil
 
 // 200 is stored when cacheable, 304 renews the stored entry, 416 is retried once;
 // every other answer is neither stored nor does it touch the cache.
